@@ -7,6 +7,34 @@ def S(name, quick, thorough, search=None, args=None):
     return d
 
 PROPS = {
+    'C01': {
+        'lean': ['MageModel.Props.C01', 'MageModel.Bridge.Deps'],
+        'streams': [S('deps', 150, 3000)],
+        'trusted': ['Go runtime scheduler and sync.{Mutex,Once,WaitGroup} (modelled as atomic moves)', 'harness gates and the settle delay of its controller', 'the executable monitors of Deps/Monitor.lean are transcriptions of the theorem statements (self-checked on the model\'s own traces every run)'],
+        'assumptions': ['acyclic dependency graphs (cycles deadlock); real interleavings inside sync primitives are sampled, not enumerated'],
+        'rule': 'random acyclic programs (1-8 dependencies, 1-3 concurrent roots, 0-2 calls per body, parallel/serial/ctx forms, repeats, five outcome kinds, three function signatures) under a random gate-release schedule (5/6 gated, 1/6 free-running); distinct = different canonical (program, observed trace); trivial = trace of <= 3 events',
+    },
+    'C02': {
+        'lean': ['MageModel.Props.C02', 'MageModel.Bridge.Deps'],
+        'streams': [S('deps', 150, 3000)],
+        'trusted': ['Go runtime scheduler and sync.{Mutex,Once,WaitGroup} (modelled as atomic moves)', 'harness gates and the settle delay of its controller', 'the executable monitors of Deps/Monitor.lean are transcriptions of the theorem statements (self-checked on the model\'s own traces every run)'],
+        'assumptions': ['acyclic dependency graphs (cycles deadlock); real interleavings inside sync primitives are sampled, not enumerated'],
+        'rule': 'random acyclic programs (1-8 dependencies, 1-3 concurrent roots, 0-2 calls per body, parallel/serial/ctx forms, repeats, five outcome kinds, three function signatures) under a random gate-release schedule (5/6 gated, 1/6 free-running); distinct = different canonical (program, observed trace); trivial = trace of <= 3 events',
+    },
+    'C03': {
+        'lean': ['MageModel.Props.C03', 'MageModel.Bridge.Deps'],
+        'streams': [S('deps', 150, 3000)],
+        'trusted': ['Go runtime scheduler and sync.{Mutex,Once,WaitGroup} (modelled as atomic moves)', 'harness gates and the settle delay of its controller', 'the executable monitors of Deps/Monitor.lean are transcriptions of the theorem statements (self-checked on the model\'s own traces every run)'],
+        'assumptions': ['acyclic dependency graphs (cycles deadlock); real interleavings inside sync primitives are sampled, not enumerated'],
+        'rule': 'random acyclic programs (1-8 dependencies, 1-3 concurrent roots, 0-2 calls per body, parallel/serial/ctx forms, repeats, five outcome kinds, three function signatures) under a random gate-release schedule (5/6 gated, 1/6 free-running); distinct = different canonical (program, observed trace); trivial = trace of <= 3 events',
+    },
+    'C13': {
+        'lean': ['MageModel.Props.C13', 'MageModel.Bridge.Deps'],
+        'streams': [S('deps', 150, 3000)],
+        'trusted': ['Go runtime scheduler and sync.{Mutex,Once,WaitGroup} (modelled as atomic moves)', 'harness gates and the settle delay of its controller', 'the executable monitors of Deps/Monitor.lean are transcriptions of the theorem statements (self-checked on the model\'s own traces every run)'],
+        'assumptions': ['acyclic dependency graphs (cycles deadlock); real interleavings inside sync primitives are sampled, not enumerated'],
+        'rule': 'random acyclic programs (1-8 dependencies, 1-3 concurrent roots, 0-2 calls per body, parallel/serial/ctx forms, repeats, five outcome kinds, three function signatures) under a random gate-release schedule (5/6 gated, 1/6 free-running); distinct = different canonical (program, observed trace); trivial = trace of <= 3 events',
+    },
     'C15': {
         'lean': ['MageModel.Props.C15', 'MageModel.Bridge.C15'],
         'streams': [S('c15', 300, 4000)],
